@@ -203,6 +203,27 @@ def binding_self_test(v: Verdict, res, prop: str):
         shutil.rmtree(sdir, ignore_errors=True)
 
 
+def single_worker_kill_hazard(v: Verdict, root: Path):
+    """Beyond C16/C17 (DESIGN 8): the model predicts that ONE worker killed inside a critical section
+    orphans the lock and blocks every other call; the experiment kills one forked worker right after it
+    acquired the claim lock and observes whether the others can still get in.  Reported in the evidence,
+    never as a violation of C16 (which quantifies over schedules without crashes)."""
+    from .aggctl import History, Scenario, policy_sequential
+    r = run_tlc("MC_Aggregator", "MC_Agg_killone.cfg", cont=False, timeout=600)
+    model = any(x["inv"] == "NoOrphanedLock" for x in r.violations)
+    sc = scn("kill-one-worker", ["A"], [E("A", "a"), E("A", "b"), E("A", "c")], workers="processes")
+    h = History(Scenario(**sc), root / "killone")
+    try:
+        h.run_session(policy_sequential, kill_worker=(1, "acq_eval"))
+    finally:
+        shutil.rmtree(root / "killone", ignore_errors=True)
+    blocked = h.deadlock is not None and h.deadlock.get("lock_owner", {}).get("eval") == 1
+    v.cov["hazard_single_worker_kill"] = {"model_counterexample_NoOrphanedLock": model, "code_other_workers_blocked_forever": blocked,
+                                          "rows_written": [e for e in (h.events[-1]["files"]["out_A"]["ls"] if h.events and "files" in h.events[-1] else [])]}
+    v.notes.append(f"hazard (outside the listed properties): one worker killed while holding the claim lock -> model counterexample: {model}, "
+                   f"real code: remaining workers blocked forever: {blocked}")
+
+
 def site_of(res):
     scn = res["scn"]
     kills = [s.get("kill_at") for s in res["sessions"]]
@@ -376,6 +397,8 @@ def check_C16(tier: str, v: Verdict):
         validate_histories(v, results, "C16")
         if tier == "thorough":
             binding_self_test(v, next(r for r in results if not r["deadlock"] and not r["hang"] and r["nevents"] > 30 and r["scn"].get("workers") != "processes"), "C16")
+        if tier == "thorough":
+            single_worker_kill_hazard(v, root)
         # uncontrolled: forked workers and thread pool
         st = stress_uncontrolled(v, "C16", root, 1 if tier == "quick" else 6)
         validate_obs_only(v, st, "C16")
